@@ -176,7 +176,7 @@ PLANS = {
                 "guards the result vector; non-trivial = >= 2 sources and >= 2 sinks; distinct = sizes, magnitude buckets, zeros, balance",
         "assumptions": ["lemon NetworkSimplex is exact"],
         "runs": [R("h_t1d", "asan", "c14.random", 50000, 300000), R("h_t1d", "asan", "c14.zeros", 50000, 300000),
-                 R("h_t1d", "asan", "c14.exhaustive", 1521, 1521, exhaustive=True),
+                 R("h_t1d", "asan", "c14.exhaustive", 4563, 4563, exhaustive=True),
                  R("h_t1d", "fast", "c14.random", 0, 500000), R("h_t1d", "fast", "c14.zeros", 0, 500000),
                  MC("h_t1d", "c14.zeros", 64)],
     },
